@@ -208,7 +208,7 @@ func ferun(c *Ctx) {
 		cr := runCmd(dir, env, mageBin, "-compile", static)
 		if cr.status != 0 {
 			// not buildable: report (the oracle says whether the package should have been rejected)
-			c.Emit(J{"op": "fe.run", "project": p, "fields": fields, "words": []string{}, "conv": J{}}, J{"build": J{"error": classifyBuild(cr.stderr)}}, "not-built")
+			c.Emit(J{"op": "fe.run", "project": p, "fields": fields, "words": []string{}, "conv": J{}}, J{"build": classifyMsg(strings.TrimPrefix(cr.stderr, "Error: "))}, "not-built")
 			os.RemoveAll(dir)
 			continue
 		}
